@@ -231,6 +231,69 @@ fn cmd_compress<T: Raw>(t: &mut Toks) -> String where T::Signed: Raw {
   s
 }
 
+// bigrun <dt> <level> <value> <count> <tail> : `count` copies of value followed by one tail
+// value, compressed as one chunk and decompressed again; only the verdict is printed
+fn cmd_bigrun<T: Raw>(t: &mut Toks) -> String where T::Signed: Raw {
+  let level = t.usize();
+  let v = T::from_raw(t.next());
+  let count = t.usize();
+  let tail = T::from_raw(t.next());
+  let mut xs = vec![v; count];
+  xs.push(tail);
+  let mut c = Compressor::<T>::from_config(config(level, 0, true));
+  c.header().unwrap();
+  let meta = match c.chunk(&xs) { Ok(m) => m, Err(e) => return err_str(&e) };
+  c.footer().unwrap();
+  let bytes = c.drain_bytes();
+  let res = match q_compress::auto_decompress::<T>(&bytes) {
+    Ok(ys) => format!("decoded={} equal={}", ys.len(), ys.len() == xs.len() && ys.iter().zip(xs.iter()).all(|(a, b)| a.num_eq(b))),
+    Err(e) => err_str(&e),
+  };
+  format!("ok bytes={} body={} {}", bytes.len(), meta.compressed_body_size, res)
+}
+
+// fibcounts <dt> <level> <nvals> <spacing_log> : value i (spaced 2^spacing_log apart) occurs
+// fib(i) times; shuffled deterministically; reports the longest Huffman code and the round trip
+fn cmd_fibcounts<T: Raw>(t: &mut Toks) -> String where T::Signed: Raw, T::Unsigned: UParse {
+  let level = t.usize();
+  let nvals = t.usize();
+  let spacing = t.usize();
+  let mut xs: Vec<T> = Vec::new();
+  let (mut a, mut b) = (1usize, 1usize);
+  for i in 0..nvals {
+    let u = T::Unsigned::parse_u(&format!("{}", (i as u128) << spacing));
+    let x = T::from_unsigned(u);
+    for _ in 0..a { xs.push(x); }
+    let c = a + b; a = b; b = c;
+  }
+  // deterministic interleave so that no long runs exist
+  let n = xs.len();
+  let mut ys = Vec::with_capacity(n);
+  let mut idx = 0usize;
+  let step = 7_919usize;
+  let mut seen = vec![false; n];
+  for _ in 0..n {
+    while seen[idx] { idx = (idx + 1) % n; }
+    seen[idx] = true;
+    ys.push(xs[idx]);
+    idx = (idx + step) % n;
+  }
+  let mut c = Compressor::<T>::from_config(config(level, 0, true));
+  c.header().unwrap();
+  let meta = match c.chunk(&ys) { Ok(m) => m, Err(e) => return err_str(&e) };
+  c.footer().unwrap();
+  let bytes = c.drain_bytes();
+  let maxlen = match &meta.prefix_metadata {
+    PrefixMetadata::Simple { prefixes } => prefixes.iter().map(|p| p.code.len()).max().unwrap_or(0),
+    PrefixMetadata::Delta { prefixes, .. } => prefixes.iter().map(|p| p.code.len()).max().unwrap_or(0),
+  };
+  let res = match q_compress::auto_decompress::<T>(&bytes) {
+    Ok(zs) => format!("decoded={} equal={}", zs.len(), zs.len() == ys.len() && zs.iter().zip(ys.iter()).all(|(a, b)| a.num_eq(b))),
+    Err(e) => err_str(&e),
+  };
+  format!("ok n={} max_code_len={} bytes={} {}", n, maxlen, bytes.len(), res)
+}
+
 fn cmd_simple<T: Raw>(t: &mut Toks) -> String {
   let level = t.usize();
   let order = t.usize();
@@ -340,6 +403,8 @@ fn dispatch<T: Raw>(cmd: &str, t: &mut Toks) -> String where T::Signed: Raw, T::
     "sweep" => cmd_sweep::<T>(t),
     "compress" => cmd_compress::<T>(t),
     "simple" => cmd_simple::<T>(t),
+    "bigrun" => cmd_bigrun::<T>(t),
+    "fibcounts" => cmd_fibcounts::<T>(t),
     "auto" => cmd_auto::<T>(t),
     "rdec" => cmd_rdec::<T>(t),
     "rhist" => cmd_rhist::<T>(t),
